@@ -144,6 +144,17 @@ def generate(tier, seed):
     for name, po in BAD_DEFINITIONS + BAD_AFTER + BAD_DIRECTION_MIXES:
         items.append({'family': 'definition-acceptance', 'task': BASE_TASKS[0], 'outline': po, 'expect_refused': name,
                       'label': 'bad definition (%s): %s' % (name, po)})
+    # a task whose two programs share the private predicate r/1: the program's copy is emitted under another name, and
+    # neither name may be (re)defined by the outline - such a definition would be an axiom about the program's predicate
+    for name, po in (('taken predicate (shared private)', 'definition: forall X (r(X) <-> q(X)).'),
+                     ('taken predicate (renamed shared private)', 'definition: forall X (r_p(X) <-> q(X)).'),
+                     ('taken predicate (renamed shared private) with a lemma',
+                      'definition: forall X (r_p(X) <-> q(X)). lemma: forall X (r_p(X) <-> q(X) and not p(X)).')):
+        items.append({'family': 'definition-acceptance', 'task': BASE_TASKS[3], 'outline': po, 'expect_refused': name,
+                      'label': 'bad definition on a task with a shared private predicate (%s): %s' % (name, po)})
+    for t in BASE_TASKS:
+        items.append({'family': 'definition-acceptance', 'kind': 'emitted-names-taken', 'task': t,
+                      'label': 'every predicate emitted for task %s is taken' % t[0]})
     for po in DEFINITIONS:
         pre = DEFINITIONS[0] + ' ' if 'd(X)' in po and po != DEFINITIONS[0] else ''
         items.append({'family': 'definition-acceptance', 'task': BASE_TASKS[0], 'outline': pre + po, 'expect_refused': None,
@@ -170,8 +181,40 @@ def induction_parts(f):
     return str(g[1][1]), int(g[3][1]), body[2]
 
 
+def check_emitted_names_taken(b, item):
+    """Whatever predicate name the problems of the outline-less task use (however anthem chose it), an outline may not
+    define it: the definition would become an axiom about a predicate of the task."""
+    task = item['task']
+    req0, resp0 = run_task(b, task, 'universal', 'independent', False, False, outline='')
+    if resp0[0][:1] == ('refused',):
+        return [{'family': item['family'], 'key': item['label'], 'input': item['label'], 'verdict': 'skipped'}]
+    emitted = set()
+    for p in parse_problems(resp0[0]):
+        for f in p['formulas']:
+            emitted |= fol_preds(f['formula'])
+    out = []
+    for (n, a) in sorted(emitted):
+        vs = ' '.join('X%d' % i for i in range(a))
+        head = '%s(%s)' % (n, ', '.join('X%d' % i for i in range(a))) if a else n
+        po = 'definition: %s(%s <-> #true).' % ('forall %s ' % vs if a else '', head)
+        req, resp = run_task(b, task, 'universal', 'independent', False, False, outline=po)
+        r = {'family': item['family'], 'input_key': item['label'], 'key': '%s#%s/%d' % (item['label'], n, a),
+             'input': '%s with outline `%s`' % (item['label'], po), 'nontrivial': True,
+             'obligation': 'an outline that defines a predicate the task\'s problems already use is refused'}
+        if resp[0][:1] == ('refused',):
+            r.update(verdict='held-concrete', output='refused')
+        else:
+            r.update(verdict='violation-concrete', signature='definition-acceptance:emitted predicate redefined',
+                     detail='%s/%d occurs in the problems of the task, yet an outline defining it is accepted' % (n, a),
+                     replay={'request': render(req), 'expected': render(resp)})
+        out.append(r)
+    return out
+
+
 def check_item(item):
     b = bridge_mod.get()
+    if item.get('kind') == 'emitted-names-taken':
+        return check_emitted_names_taken(b, item)
     task = item['task']
     name, kind, left, right, ug = task
     po = item['outline']
@@ -211,7 +254,7 @@ def check_item(item):
         r.update(key=item['label'], input=item['label'], verdict='skipped', detail='task refused: %s' % str(resp[0][1])[:300])
         return [r]
     problems = parse_problems(resp[0])
-    aliases = symbol_aliases(problems)
+    aliases = symbol_aliases(problems, (left, right, ug, po))
     entries = [(e[1], e[2], str(e[3]), replace_placeholders(e[4], placeholders)) for e in po_tree[1:]]
 
     for d in ('forward', 'backward'):
